@@ -1097,6 +1097,75 @@ theorem erase_last_col_counterexample (fx : Fixes) : ¬ C09_erase_full fx := by
   rcases fx with ⟨a, b, c, d⟩
   cases a <;> cases b <;> cases c <;> cases d <;> decide +kernel
 
+/-! ### Offsets as large as the rectangle -/
+
+/-- The scroll clause for a rectangle on the screen and offsets of ANY size: a cell whose source falls outside the
+    rectangle is vacated, so an offset as large as the rectangle (in particular any vertical offset of a one-line
+    rectangle) must leave all of it blank - or the scroll must be refused. -/
+def C09_scroll_any_offset (fx : Fixes) : Prop :=
+  ∀ (vt : VTState), Spec.WF vt → ∀ (caps : Caps), Spec.CapsOK caps vt →
+    ∀ (rect : Rect) (downward rightward : Int),
+      1 ≤ rect.lines → 1 ≤ rect.cols → 0 ≤ rect.top → rect.bottom ≤ vt.lines → 0 ≤ rect.left → rect.right ≤ vt.cols →
+      (scrollrect fx caps vt.cols rect downward rightward).1 = true →
+      Spec.ScrollOK rect downward rightward vt (run (scrollrect fx caps vt.cols rect downward rightward).2 vt)
+
+/-- A one-line rectangle cannot be scrolled vertically by insert/delete line (DECSTBM needs two lines): the driver
+    refuses, with or without DECSLRM, whatever the horizontal offset - it reports failure and sends nothing. -/
+theorem scroll_oneline_vertical_refused (fx : Fixes) (hfx : fx.scrollGuard = true) (caps : Caps) (termCols : Int)
+    (rect : Rect) (downward rightward : Int) (h1 : rect.lines = 1) (hd : downward ≠ 0) :
+    scrollrect fx caps termCols rect downward rightward = (false, []) := by
+  unfold scrollrect
+  have h0 : ¬ (downward = 0 ∧ rightward = 0) := fun h => hd h.1
+  rw [if_neg h0]
+  simp only []
+  have hB : ¬ (((caps.slrm = true ∧ rect.lines = 1) ∨ rect.right = termCols) ∧ downward = 0) := fun h => hd h.2
+  rw [if_neg hB]
+  by_cases h2 : caps.slrm = true ∨ (rect.left = 0 ∧ rect.cols = termCols ∧ rightward = 0)
+  · rw [if_pos h2]
+    have h3 : fx.scrollGuard = true ∧
+        (rect.lines < 2 ∨ ((rect.left > 0 ∨ rect.right < termCols) ∧ rect.cols < 2)) := ⟨hfx, Or.inl (by omega)⟩
+    rw [if_pos h3]
+  · rw [if_neg h2]
+
+/-- Hence the any-offset clause holds for every one-line rectangle scrolled vertically (alone or diagonally): success
+    is never reported for it, so nothing is claimed that the bytes do not do. -/
+theorem scroll_oneline_vertical_partial (fx : Fixes) (hfx : fx.scrollGuard = true) (vt : VTState) (caps : Caps)
+    (rect : Rect) (downward rightward : Int) (h1 : rect.lines = 1) (hd : downward ≠ 0) :
+    (scrollrect fx caps vt.cols rect downward rightward).1 = false ∧
+    run (scrollrect fx caps vt.cols rect downward rightward).2 vt = vt := by
+  rw [scroll_oneline_vertical_refused fx hfx caps vt.cols rect downward rightward h1 hd]
+  exact ⟨rfl, rfl⟩
+
+example : scrollrect ⟨true, true, true, true⟩ ⟨true, false, false⟩ 6 ⟨2, 1, 1, 3⟩ (-1) 0 = (false, []) :=
+  scroll_oneline_vertical_refused _ rfl _ _ _ _ _ rfl (by decide)
+example : scrollrect ⟨true, true, true, true⟩ ⟨true, false, false⟩ 6 ⟨2, 1, 1, 3⟩ 1 2 = (false, []) := by decide
+-- the same rectangle scrolled horizontally only is accepted (ICH/DCH between DECSLRM margins)
+example : (scrollrect ⟨true, true, true, true⟩ ⟨true, false, false⟩ 6 ⟨2, 1, 1, 3⟩ 0 2).1 = true := by decide
+
+/-- What the clause demands of a success that the one-line path would report for a vertical offset: had the bytes of
+    the horizontal-only strategy (`scrollrect … 0 r`) been sent for `(d, r)` with `d ≠ 0`, the rectangle would have had
+    to end up blank.  On a 3x6 screen the cell (1,2) keeps a glyph: such a success would violate the clause. -/
+theorem oneline_horizontal_bytes_do_not_scroll_vertically :
+    ¬ Spec.ScrollOK ⟨1, 1, 1, 3⟩ 1 1 { cexScreen 3 6 with declrmm := true }
+        (run (scrollrect ⟨true, true, true, true⟩ ⟨true, false, false⟩ 6 ⟨1, 1, 1, 3⟩ 0 1).2 { cexScreen 3 6 with declrmm := true }) := by
+  intro h
+  have h2 := congrFun (congrFun h.2.1 1) 1
+  revert h2
+  decide +kernel
+
+/-- DEFECT (unchanged tree, all repairs so far): on a 2x5 terminal with DECSLRM available, `scrollrect((1,0) 1x1, 0, -1)`
+    reports success and sends `CSI ;1 s  CSI 2 H  CSI @  CSI s`; `CSI ;1 s` asks for left = right margin and is ignored,
+    so ICH shifts the whole of row 1 and cell (1,1), outside the rectangle, changes. -/
+theorem scroll_one_cell_counterexample (fx : Fixes) : ¬ C09_scroll_any_offset fx := by
+  intro h
+  have h1 := h { cexScreen 2 5 with declrmm := true } (by constructor <;> decide) ⟨true, false, false⟩ (fun _ => rfl)
+    ⟨1, 0, 1, 1⟩ 0 (-1) (by decide) (by decide) (by decide) (by decide) (by decide) (by decide)
+    (by rcases fx with ⟨a, b, c, d⟩; cases a <;> cases b <;> cases c <;> cases d <;> decide)
+  have h2 := congrFun (congrFun h1.2.1 1) 1
+  revert h2
+  rcases fx with ⟨a, b, c, d⟩
+  cases a <;> cases b <;> cases c <;> cases d <;> decide +kernel
+
 /-! ### Tie to the source: constants and format strings regenerated from `termdriver-xterm.c` on every run -/
 
 open Tickit.Gen.XTermFacts in
